@@ -247,6 +247,26 @@ let cwire_line line =
       (if allocs = [] then "-" else String.concat "," (List.map (fun a -> string_of_int (int_of_z a)) allocs))
   | _ -> ()
 
+(* ---------------- hub-sync runs (C13) ---------------- *)
+let int_of_nat n = let rec go acc = function O -> acc | S m -> go (acc + 1) m in go 0 n
+let csync_line line =
+  match split_ws line with
+  | id :: fields ->
+    let tbl = ref [] and l = ref [] and h = ref [] and c = ref [] in
+    let tree v = if v = "-" then [] else List.map (fun e -> match String.split_on_char ':' e with
+        | [p; c] -> (zl_of_hex p, zl_of_hex c) | _ -> failwith "bad tree") (split_on ';' v) in
+    List.iter (fun f ->
+      let (k, v) = kv_of f in
+      if k = "T" then tbl := List.map (fun e -> match String.split_on_char ':' e with
+          | [c; h] -> (zl_of_hex c, List.map (fun ch -> z_of_int (Char.code ch)) (List.init (String.length h) (String.get h)))
+          | _ -> failwith "bad T") (split_on ';' v)
+      else if k = "L" then l := tree v else if k = "H" then h := tree v else if k = "C" then c := tree v) fields;
+    let (((t, sent), skipped), conflicts) = sync_exec !tbl !l !h !c in
+    let conflicts = int_of_nat conflicts in
+    Printf.printf "%s %s sent=%d skipped=%d conflicts=%d F=%s\n" id (if conflicts = 0 then "EXIT0" else "EXITERR")
+      (int_of_nat sent) (int_of_nat skipped) conflicts (tree_str t)
+  | _ -> ()
+
 let () =
   match Array.to_list Sys.argv with
   | _ :: "c17" :: file :: _ -> iter_lines file (c17_line false)
@@ -257,6 +277,7 @@ let () =
   | _ :: "cpatch" :: file :: _ -> iter_lines file cpatch_line
   | _ :: "chub" :: file :: _ -> iter_lines file chub_line
   | _ :: "cwire" :: file :: _ -> iter_lines file cwire_line
+  | _ :: "csync" :: file :: _ -> iter_lines file csync_line
   | _ :: "crefuse" :: file :: _ -> iter_lines file (fun line -> match split_ws line with
       | id :: p :: _ -> Printf.printf "%s %s\n" id (if refused (zl_of_hex p) then "REFUSED" else "ACCEPTED")
       | _ -> ())
